@@ -9,6 +9,8 @@ Settings, EventBus) runs on `vlib.simloop.SimLoop` against the scripted collabor
     ['addUpload', u, dt] ['addDownload', u, dt] ['started', k, dt] ['finish', k, dt] ['failX', k, dt]
     ['backToQueue', k, stage, dt] ['requeue', k, dt] ['apiQueue', k, dt] ['abort', k, dt]
     ['setSlots', n, dt] ['setUser', u, status, friend, priv, dt] ['wait', dt]
+    ['abortRace', k, dt]     abort(k) runs as its own task while, in the same step, a status message for k's user (unchanged
+                             attributes) requests a cycle: the cycle runs while abort waits for the task it cancelled
 
 Management cycles are NOT scripted: the real job decides when it runs (coalescing queue of size 1,
 0.05 s minimum interval); the harness only chooses the instants of the other events (including
@@ -147,6 +149,27 @@ async def _perform(rig, body: list) -> str:
     raise ValueError(f'bad op {body!r}')
 
 
+async def _abort_race(rig, k: int):
+    """abort(k) as its own task + a cycle request in the same step (see module doc). Logged as two model lines,
+    each where its effect happens: `setUser` now, `abort` in the step in which the call completes."""
+    if k >= len(rig.transfers) or not rig.transfers[k].is_upload():
+        rig.log.append(('opline', f'abort {k}', await _perform(rig, ['abort', k])))
+        return
+    t = rig.transfers[k]
+    u = int(t.username[len('user'):])
+    user = rig.users.get_user_object(t.username)
+    attrs = [user.status.name, t.username in rig.settings.users.friends, bool(user.privileged)]
+
+    async def do_abort():
+        res = await _perform(rig, ['abort', k])
+        rig.log.append(('opline', f'abort {k}', res))
+
+    task = asyncio.ensure_future(do_abort())
+    res = await _perform(rig, ['setUser', u] + attrs)
+    rig.log.append(('opline', _op_line(['setUser', u] + attrs), res))
+    await task
+
+
 def _snap(rig) -> str:
     _, ups = rig.mgr._get_queued_transfers()
     q = ','.join(str(rig.k_of(t)) for t in ups) or '-'
@@ -169,8 +192,11 @@ def _run_impl(case: dict) -> dict:
                 await asyncio.sleep(dt)          # no settle: the op may land inside the iteration of a cycle
             if body[0] in TASK_OPS:
                 await simloop.settle()
-            res = await _perform(rig, body)
-            rig.log.append(('op', i, res))
+            if body[0] == 'abortRace':
+                await _abort_race(rig, body[1])
+            else:
+                res = await _perform(rig, body)
+                rig.log.append(('op', i, res))
             await simloop.settle()
             marks.append((mark, len(rig.log), _snap(rig)))
             mark = len(rig.log)
@@ -223,6 +249,9 @@ def _script(case: dict, impl: dict) -> tuple[list[str], list[str]]:
                 lines.append('cycle')
                 sel = ','.join(str(k) for kind, k in e[1] if kind == 'T') or '-'
                 obs.append(f'cycle sel={sel}')
+            elif e[0] == 'opline':
+                lines.append(e[1])
+                obs.append(f'op {e[2]}')
             elif e[0] == 'op':
                 body = case['ops'][e[1]][:-1]
                 if body[0] == 'wait':
@@ -411,28 +440,68 @@ class _Mirror:
 
 
 def _gen_case(rng: random.Random, max_ops: int = 12) -> dict:
-    slots = rng.choice([0, 1, 1, 2, 2, 2, 3, 4])
-    nusers = rng.randint(1, 5)
-    m = _Mirror(slots)
+    """85 %: a contended population is set up first (more users with queued uploads than slots, mixed ranks, all queued
+    inside one sleep of the management job so that the next cycle has to rank), then <= max_ops ops that keep freeing
+    and re-filling slots; 15 %: free-form sequence from an empty manager (covers slots 0, single user, idle cycles)."""
     ops: list[list] = []
-    kind_profile = rng.choice(['mixed', 'mixed', 'contention', 'limits', 'churn'])
-    # initial population of user attributes
-    for u in range(nusers):
-        if rng.random() < 0.75:
-            st = rng.choice(['UNKNOWN', 'OFFLINE', 'AWAY', 'ONLINE', 'ONLINE'])
-            fr, pr = rng.random() < 0.35, rng.random() < 0.3
-            ops.append(['setUser', u, st, fr, pr, 0])
-            m.users[u] = [st, fr, pr]
-            m.pending = True
-    n = rng.randint(4, max_ops)
+    contended = rng.random() < 0.85
+    if contended:
+        slots = rng.choice([1, 1, 2, 2, 3, 3, 4])
+        nusers = min(5, slots + rng.randint(1, 2))
+        m = _Mirror(slots)
+        kind_profile = rng.choice(['contention', 'contention', 'limits', 'churn', 'churn'])
+        # mixed ranks; the first setUser wakes the idle job, which then sleeps 0.05 s: everything with dt = 0 below
+        # is queued before the next cycle
+        first = True
+        # more eligible (not offline) users than slots: at most nusers - slots - 1 users start offline
+        offline = set(rng.sample(range(nusers), rng.randint(0, max(0, nusers - slots - 1))))
+        for u in range(nusers):
+            if first or u in offline or rng.random() < 0.7:
+                st = 'OFFLINE' if u in offline else rng.choice(['UNKNOWN', 'UNKNOWN', 'AWAY', 'AWAY', 'ONLINE', 'ONLINE', 'ONLINE'])
+                fr, pr = rng.random() < 0.4, rng.random() < 0.35
+                ops.append(['setUser', u, st, fr, pr, 0])
+                m.users[u] = [st, fr, pr]
+                if first:
+                    m.pending = True
+                    m.cycle()
+                    first = False
+                m.pending = True
+        arrivals = list(range(nusers)) + [rng.randrange(nusers) for _ in range(rng.randint(0, 2))]
+        rng.shuffle(arrivals)
+        for u in arrivals:
+            ops.append(['addUpload', u, 0])
+            m.xs.append([u, 'U', 'QUEUED'])
+        m.pending = True
+        w = rng.choice([0.05, 0.05, 0.1])
+        ops.append(['wait', w])
+        m.tick(w)
+    else:
+        slots = rng.choice([0, 0, 1, 1, 2, 2, 3, 4])
+        nusers = rng.randint(1, 5)
+        m = _Mirror(slots)
+        kind_profile = rng.choice(['mixed', 'mixed', 'limits', 'churn'])
+        # initial population of user attributes
+        for u in range(nusers):
+            if rng.random() < 0.75:
+                st = rng.choice(['UNKNOWN', 'OFFLINE', 'AWAY', 'ONLINE', 'ONLINE'])
+                fr, pr = rng.random() < 0.35, rng.random() < 0.3
+                ops.append(['setUser', u, st, fr, pr, 0])
+                m.users[u] = [st, fr, pr]
+                m.pending = True
+    n = rng.randint(6 if contended else 4, max_ops)
     weights = {'addUpload': 26, 'started': 12, 'finish': 10, 'failX': 5, 'backToQueue': 8, 'requeue': 4, 'apiQueue': 3,
-               'abort': 6, 'setSlots': 6, 'setUser': 10, 'addDownload': 2, 'wait': 6}
+               'abort': 6, 'abortRace': 3, 'setSlots': 6, 'setUser': 10, 'addDownload': 2, 'wait': 6}
+    if contended:
+        # keep the slots turning over: completions / fall-backs / aborts free slots between cycles, arrivals and rank
+        # changes re-order the waiting users, the limit moves while uploads are active
+        weights = {'addUpload': 14, 'started': 16, 'finish': 16, 'failX': 7, 'backToQueue': 12, 'requeue': 5, 'apiQueue': 3,
+                   'abort': 6, 'abortRace': 7, 'setSlots': 7, 'setUser': 9, 'addDownload': 1, 'wait': 5}
     if kind_profile == 'contention':
-        weights.update({'addUpload': 40, 'setUser': 14})
+        weights.update({'addUpload': weights['addUpload'] + 12, 'setUser': 14})
     elif kind_profile == 'limits':
-        weights.update({'setSlots': 18})
+        weights.update({'setSlots': 20})
     elif kind_profile == 'churn':
-        weights.update({'finish': 16, 'backToQueue': 14, 'failX': 9, 'requeue': 8})
+        weights.update({'finish': 20, 'backToQueue': 16, 'failX': 10, 'requeue': 8})
     kinds = list(weights)
     for _ in range(n):
         dt = rng.choice([0, 0, 0, 0.05, 0.05, 0.02, 0.1, 0.3])
@@ -443,7 +512,7 @@ def _gen_case(rng: random.Random, max_ops: int = 12) -> dict:
         if len(m.xs) < 2:
             kind = 'addUpload' if rng.random() < 0.8 else kind
         by_state = lambda *sts: [k for k, x in enumerate(m.xs) if x[1] == 'U' and x[2] in sts]
-        valid = rng.random() < 0.9
+        valid = rng.random() < (0.95 if contended else 0.9)
         def pick(cands):
             if cands and valid:
                 return rng.choice(cands)
@@ -464,6 +533,8 @@ def _gen_case(rng: random.Random, max_ops: int = 12) -> dict:
             continue
         elif kind == 'setSlots':
             v = rng.choice([0, 1, 2, 3, 4])
+            if contended and rng.random() < 0.6:
+                v = max(0, min(4, m.slots + rng.choice([-1, -1, 1, 1, 2])))
             ops.append(['setSlots', v, dt])
             m.slots = v
         elif kind == 'setUser':
@@ -481,10 +552,21 @@ def _gen_case(rng: random.Random, max_ops: int = 12) -> dict:
             src = {'started': ('INITIALIZING',), 'finish': ('UPLOADING',), 'failX': ('INITIALIZING', 'UPLOADING'),
                    'backToQueue': ('INITIALIZING',), 'requeue': ('FAILED', 'COMPLETE'),
                    'apiQueue': ('ABORTED', 'FAILED', 'COMPLETE'),
-                   'abort': ('QUEUED', 'INITIALIZING', 'UPLOADING')}[kind]
-            k = pick(by_state(*src))
+                   'abort': ('QUEUED', 'INITIALIZING', 'UPLOADING'),
+                   'abortRace': ('UPLOADING', 'UPLOADING', 'INITIALIZING')}[kind]
+            cands = by_state(*src)
+            if kind == 'abortRace':
+                # prefer an active upload whose user has another upload waiting (the cycle that runs while abort waits
+                # must still see that user as busy)
+                pref = [k for k in cands if any(x[0] == m.xs[k][0] and x[1] == 'U' and x[2] == 'QUEUED' for x in m.xs)]
+                cands = pref or cands
+                if rng.random() < 0.5:
+                    dt2 = rng.choice([0.3, 0.3, 0.1])         # the management job is idle: the cycle runs at once
+                    m.tick(max(0.0, dt2 - dt))
+                    dt = dt2
+            k = pick(cands)
             dst = {'started': 'UPLOADING', 'finish': 'COMPLETE', 'failX': 'FAILED', 'backToQueue': 'QUEUED',
-                   'requeue': 'QUEUED', 'apiQueue': 'QUEUED', 'abort': 'ABORTED'}[kind]
+                   'requeue': 'QUEUED', 'apiQueue': 'QUEUED', 'abort': 'ABORTED', 'abortRace': 'ABORTED'}[kind]
             if kind == 'backToQueue':
                 ops.append([kind, k, rng.choice(STAGES), dt])
             else:
@@ -494,7 +576,7 @@ def _gen_case(rng: random.Random, max_ops: int = 12) -> dict:
                 m.pending = True
         if m.pending and m.t >= m.wake:
             m.cycle()
-    return {'slots': slots, 'ops': ops, 'kind': kind_profile}
+    return {'slots': slots, 'ops': ops, 'kind': ('contended-' if contended else 'free-') + kind_profile}
 
 
 # directed schedules, always run
@@ -511,6 +593,11 @@ DIRECTED = [
     {'kind': 'directed-lower-limit', 'slots': 3, 'ops': [
         ['addUpload', 0, 0], ['addUpload', 1, 0], ['addUpload', 2, 0], ['addUpload', 3, 0.1], ['setSlots', 1, 0.1],
         ['started', 0, 0], ['finish', 0, 0.1], ['wait', 0.3], ['failX', 1, 0], ['backToQueue', 2, 'conn', 0.1],
+        ['wait', 0.3]]},
+    # a cycle runs while abort of user0's UPLOADING upload waits for its task: user0 is still busy, his second upload
+    # must wait for the cycle after the abort
+    {'kind': 'directed-cycle-during-abort', 'slots': 2, 'ops': [
+        ['addUpload', 0, 0], ['addUpload', 0, 0], ['wait', 0.1], ['started', 0, 0], ['wait', 0.3], ['abortRace', 0, 0],
         ['wait', 0.3]]},
     # same user twice, offline user, friend
     {'kind': 'directed-one-per-user', 'slots': 4, 'ops': [
@@ -552,6 +639,14 @@ def _features(case: dict, impl: dict) -> set:
             feats.add('refused-op')
     if n_sel >= 2:
         feats.add('two-cycles-started-uploads')
+    racing = False
+    for e in impl['log']:
+        if e[0] == 'opline':
+            racing = e[1].startswith('setUser')
+        elif e[0] == 'cycle' and racing:
+            busy_active = [x for x in e[2]['xs'] if x[2] == 'U' and x[3] in ('INITIALIZING', 'UPLOADING')]
+            if busy_active:
+                feats.add('cycle-while-abort-waits')
     for s in ('UPLOADING', 'COMPLETE', 'FAILED', 'ABORTED'):
         if s in states_seen:
             feats.add('reached-' + s)
@@ -569,14 +664,16 @@ class C05(Property):
     id = 'C05'
     props_module = 'AioslskVerif.Props.C05'
     driver_module = 'AioslskVerif.Driver.C05'
-    rule = ('slot limit 0..4, 1..5 users with random status/friend/privilege (changed during the run), 4..12 ops '
-            '(thorough: ..24) out of: peer queues an upload, download added, initialisation succeeds / is refused / '
-            'falls back to the queue at one of 5 stages, upload completes / fails, peer re-queue, API queue, abort, '
-            'limit change, user attribute change, each preceded by a virtual delay from {0, 0.02, 0.05 (= the management '
-            'timer), 0.1, 0.3} s; management cycles are run by the real job and logged where they happen; derived from '
-            'VERIF_SEED. A case is non-trivial when at least one cycle had more eligible users than free slots with a '
-            'free slot to give (a ranking decision) and at least two cycles started uploads; distinct = distinct '
-            'canonical case')
+    rule = ('85 % of the cases start from a contended population: slot limit 1..4, slots+1..slots+2 (<= 5) users with mixed '
+            'status/friend/privilege (at most so many offline that eligible users still outnumber the slots), one or two '
+            'queued uploads per user, all queued inside one sleep of the management job so that the next cycle has to rank; '
+            '15 % start empty (slot limit 0..4, 1..5 users). Then 4..12 ops (thorough: ..24) out of: peer queues an upload, '
+            'download added, initialisation succeeds / is refused / falls back to the queue at one of 5 stages, upload '
+            'completes / fails, peer re-queue, API queue, abort, limit change (mostly by one step while uploads are active), '
+            'user attribute change, each preceded by a virtual delay from {0, 0.02, 0.05 (= the management timer), 0.1, 0.3} s; '
+            'management cycles are run by the real job and logged where they happen; derived from VERIF_SEED. A case is '
+            'non-trivial when at least one cycle had more eligible users than free slots with a free slot to give (a ranking '
+            'decision) and at least two cycles started uploads; distinct = distinct canonical case')
     assumptions = [
         'the management job sleeps >= MIN_TRANSFER_MGMT_INTERVAL between two cycles and `initialize()` of a freshly '
         'created initialize-upload task is not delayed by a held state lock, so no cycle sees a selected upload still '
@@ -599,7 +696,7 @@ class C05(Property):
 
     def _cases(self, seed, tier, widen):
         rng = random.Random(f'C05-{seed}')
-        n = (2500 if tier == 'quick' else 40000) * widen
+        n = (1800 if tier == 'quick' else 40000) * widen
         mx = 12 if tier == 'quick' else 24
         return list(DIRECTED) + [_gen_case(rng, rng.choice([12, mx])) for _ in range(n)]
 
